@@ -21,7 +21,6 @@ import env  # noqa: F401  (first)
 env.shim_oscrypto()
 
 import glob
-import hashlib
 import itertools
 import json
 import multiprocessing
@@ -34,11 +33,11 @@ import bpdrive
 
 SIG_SAMEOFF = ('C06 / recv_bundle identity of a fragment omits its payload length: a fragment with the same offset and total '
                'but a different length is dropped as already seen and a covered bundle is never delivered')
-# Genuine defect of the unchanged code, shown to the coordinator with its witness (harness/corpus/C06_same_offset.json)
-# and awaiting a decision (fix: commit or known_findings.json).  While the signature is listed here and not yet in
-# known_findings.json the failure is printed as PENDING-FINDING and does not fail the run; once it is listed in
-# known_findings.json it goes through chk.fail() and prints KNOWN-FINDING.
-PENDING_FINDINGS = [SIG_SAMEOFF]
+# Genuine defect of the unchanged code, recorded in /verif/known_findings.json under exactly this signature (witness
+# harness/corpus/C06_same_offset.json = Coq theorem C06_complete_once_refuted).  It goes through chk.fail(): while the
+# entry is listed as known it prints KNOWN-FINDING, any other loss / duplication / mixing is a VIOLATION.  The oracle
+# uses this signature only when the arrived fragments of the undelivered bundle contain two with the same offset and
+# different lengths.
 
 PHASES = []      # (phase, wall seconds) of this run, printed and written to the evidence
 NODE = 'dtn://me/'
@@ -118,7 +117,8 @@ def run_impl(case):
             first_len = None
             if first is not None:
                 first_len = len(bytes(bpdrive_payload(first)))
-            table.append([[srcnum.get(key[0], -1), int(key[1]), int(key[2])], int(ent.total_length),
+            key = key if isinstance(key, tuple) else (key,)
+            table.append([[srcnum.get(part, part if isinstance(part, int) else -1) for part in key], int(ent.total_length),
                           [[int(atom.lower), int(atom.upper)] for atom in ent.valid], bytes(ent.data).hex(), first_len])
         table.sort()
         out.append(dict(code=code, exc=[obs['decode_error'], obs['recv_exc'], obs['escaped']] if code == 90 else None,
@@ -242,7 +242,9 @@ def oracle(case, obs):
                 bad.append(('C06 / bundle delivered more than once', 'step %d: delivery number %d of %r' % (pos, count[bidx], item['id'])))
         for (key, total, valid, buf, _first) in step['table']:
             bidx = by_id.get(tuple(key))
-            if bidx is None or not arrived[bidx]:
+            if bidx is None:
+                continue        # table keyed in a way this oracle does not understand: judge by the deliveries alone
+            if not arrived[bidx]:
                 bad.append(('C06 / reassembly entry for an identity that never arrived', 'step %d: key %r' % (pos, key)))
                 continue
             pay = bytes.fromhex(bundles[bidx]['payload'])
@@ -413,7 +415,7 @@ def gen_cases(chk):
                 seqs.append(order)
             return interleave(rng, seqs)
         cases.append(make_case('random', defs, build, rng))
-    # D. same offset, different lengths (two fragmentations of one bundle mixed): the pending-finding class
+    # D. same offset, different lengths (two fragmentations of one bundle mixed): the known-finding class
     for num in range(24 if quick else 300):
         length = rng.choice([10, 16, 30])
         pay = payload_of(5000 + num, length)
@@ -482,18 +484,7 @@ def nontrivial(case):
     return len(per) > 1 or len(set(hist)) < len(hist) or offs != sorted(offs)
 
 
-def report(chk, pending, sig, what, replay_obj):
-    if sig in PENDING_FINDINGS and chk.known_match(sig) is None:
-        if sig not in pending:
-            path = os.path.join(VERIF, 'build', 'replay', 'C06_pending_%s.json' % hashlib.sha1(sig.encode()).hexdigest()[:10])
-            with open(path, 'w') as out:
-                json.dump(dict(property='C06', signature=sig, what=what, replay=replay_obj), out, indent=1)
-            pending[sig] = (what, path)
-        return
-    chk.fail(sig, what, replay_obj)
-
-
-def evaluate(chk, cases, name, pending, with_oracle=True, with_model=True):
+def evaluate(chk, cases, name, with_oracle=True, with_model=True):
     ''' Implementation, model and oracle on a list of cases. -> list of disagreement descriptions '''
     started = time.time()
     impl = run_impl_many(cases)
@@ -530,7 +521,7 @@ def evaluate(chk, cases, name, pending, with_oracle=True, with_model=True):
                     json.dump(dict(property='C06', what=diffs[-1], replay=case), out, indent=1)
         if with_oracle and all(consistent(case, fidx) for fidx in case['hist']):
             for (sig, what) in oracle(case, obs):
-                report(chk, pending, sig, what, case)
+                chk.fail(sig, what, case)
     return diffs
 
 
@@ -561,16 +552,13 @@ def replay(chk, path):
         print('  fragment bundle=%r off=%d len=%d total=%d -> code %d, delivered %s, table %s' % (
             case['bundles'][frag['b']]['id'], frag['off'], len(frag['data']) // 2, frag['total'], step['code'],
             [(d['id'], d['payload'][:40]) for d in step['delivered']], [(e[0], e[1], e[2]) for e in step['table']]))
-    pending = {}
     why = []
     if all(consistent(case, fidx) for fidx in case['hist']):
         for (sig, what) in oracle(case, obs):
             why.append(what)
-            report(chk, pending, sig, what, case)
+            chk.fail(sig, what, case)
     else:
         print('  (history contains inconsistent fragments: outside the property quantifier, oracle not applicable)')
-    for (sig, (what, _path)) in sorted(pending.items()):
-        print('PENDING-FINDING: property=C06 %s: %s' % (sig, what))
     chk.case(('replay', path), nontrivial=nontrivial(case), sample=dict(replay=os.path.basename(path), failed=bool(why)))
     chk.obligation('replay', True, '')
     print('replay verdict: %s' % ('; '.join(why) if why else 'oracle satisfied'))
@@ -585,7 +573,6 @@ def main():
     started = time.time()
     chk.coq_props()
     PHASES.append(('coq_props', round(time.time() - started, 1)))
-    pending = {}
     diffs = {}
     try:
         # corpus first (witnesses of findings)
@@ -593,11 +580,11 @@ def main():
         if corpus:
             for (path, _ent) in corpus:
                 chk.count('corpus', os.path.basename(path))
-            diffs['corpus'] = evaluate(chk, [ent.get('replay', ent.get('case')) for (_p, ent) in corpus], 'corpus', pending)
+            diffs['corpus'] = evaluate(chk, [ent.get('replay', ent.get('case')) for (_p, ent) in corpus], 'corpus')
         cases = gen_cases(chk)
-        diffs['histories'] = evaluate(chk, cases, 'hist', pending)
+        diffs['histories'] = evaluate(chk, cases, 'hist')
         bad = gen_malformed(chk)
-        diffs['inconsistent'] = evaluate(chk, bad, 'bad', pending, with_oracle=False)
+        diffs['inconsistent'] = evaluate(chk, bad, 'bad', with_oracle=False)
         for (suite, lst) in diffs.items():
             chk.obligation('correspondence:' + suite, not lst, '; '.join(lst[:3]))
         if any(diffs.values()) and not chk.violations:
@@ -605,7 +592,7 @@ def main():
             chk.tier = 'thorough'
             more = gen_cases(chk)
             chk.tier = chk.args.tier
-            evaluate(chk, more, 'search', pending, with_model=False)
+            evaluate(chk, more, 'search', with_model=False)
     except CoqError as err:
         print('model evaluation failed: %s' % str(err)[:1500])
         chk.obligation('correspondence:model-evaluation', False, str(err)[:600])
@@ -613,18 +600,16 @@ def main():
             chk.tier = 'thorough'
             more = gen_cases(chk)
             chk.tier = chk.args.tier
-            evaluate(chk, more, 'search', pending, with_model=False)
+            evaluate(chk, more, 'search', with_model=False)
     if not getattr(chk, 'coq_failure', None) is None and not chk.violations and not any(diffs.values()):
         # a proof no longer checks although the model still agrees with the code on the sample: search with the oracle
         chk.tier = 'thorough'
         more = gen_cases(chk)
         chk.tier = chk.args.tier
-        evaluate(chk, more, 'search', pending, with_model=False)
+        evaluate(chk, more, 'search', with_model=False)
     for (name, okay, detail) in chk.obligations:
         if not okay:
             print('# broken: %s: %s' % (name, detail[:1200]))
-    for (sig, (what, path)) in sorted(pending.items()):
-        print('PENDING-FINDING: property=C06 %s: %s (replay %s)' % (sig, what, path))
     print('phases (wall s): %s' % ', '.join('%s %.1f' % item for item in PHASES))
     chk.finish(
         rule=('arrival histories of fragment bundles fed to a fresh real agent: (A) all permutations of 1..5 fragments of one '
@@ -639,9 +624,8 @@ def main():
               'whole case (bundles, fragments, arrival order).'),
         extra_cov=dict(
             model='coq/Model/BpReasm.v', phases_wall_s=[list(item) for item in PHASES],
-            refuted=['C06_complete_once_refuted (pending finding: %s)' % SIG_SAMEOFF],
+            refuted=['C06_complete_once_refuted (known finding: %s)' % SIG_SAMEOFF],
             partial=['C06_complete_once_partial (hypothesis: no two distinct fragments of the cover share an offset)'],
-            pending_findings=[dict(signature=sig, what=what) for (sig, (what, _p)) in sorted(pending.items())],
             notes=['a fragment arriving after its bundle was reassembled re-creates a reassembly entry that is never removed '
                    '(the second completion, if any, is suppressed by the seen-identity set): modelled and compared, not part of the verdict',
                    'a complete entry without a first fragment (only possible with total 0 and offset > 0) raises AttributeError '
@@ -654,6 +638,9 @@ def main():
                      'next fragment (the harness drains idle sources after each recv_bundle)',
                      'all fragments carry valid CRCs, a foreign source and a destination that the RX route table delivers locally; '
                      'no BPSec policy is configured',
+                     'the SAFE application handler (bp/app/safe.py, RX chain order 30) consumes every bundle whatever its '
+                     'destination and then raises on foreign payloads; "bundles reaching an application step" are therefore observed '
+                     'by a recording step of order 30 placed ahead of the built-in order-30 handlers',
                      'fragment bundles are encoded by the independent cbor2 encoder of harness/bpdrive.py and decoded by the real '
                      'bp.encoding.Bundle exactly as the CL receive callback does'])
 
